@@ -48,6 +48,9 @@ pub struct Picture {
     /// statistics
     pub repeats: u64,
     pub blank_repeats: u64,
+    /// largest repeat count seen on a painting / on a blank data character
+    pub max_repeat: usize,
+    pub max_blank_repeat: usize,
     pub carriage_returns: u64,
     pub newlines: u64,
     pub data_chars: u64,
@@ -247,7 +250,9 @@ pub fn interpret(bytes: &[u8]) -> Result<Picture, SixelErr> {
                 let bits = ch - b'?';
                 if bits == 0 {
                     pic.blank_repeats += 1;
+                    pic.max_blank_repeat = pic.max_blank_repeat.max(n);
                 } else {
+                    pic.max_repeat = pic.max_repeat.max(n);
                     for dx in 0..n {
                         for bit in 0..6 {
                             if bits & (1 << bit) != 0 {
